@@ -912,3 +912,30 @@ def header_count_family(H: int) -> List[Tuple[str, bytes, List[List[int]], str]]
                 + b"HTTP/1.1 204 No\r\n\r\n"
             out.append((f"resp-header-lines-{nf}-{bk}", r, [], "response"))
     return out
+
+
+def fold_sum_family(F: int) -> List[Tuple[str, bytes, List[List[int]], str]]:
+    """Folded response headers (obs-fold, lax client parser only) whose continuation lines are each well below the
+    field limit but whose sum reaches limit-1 / limit / limit+1 / several times the limit; the continuation lines start
+    with short or long runs of SP / HTAB (what is delivered and counted is the raw join, not one SP per fold)."""
+    out: List[Tuple[str, bytes, List[List[int]], str]] = []
+    for ws_name, ws in (("sp1", b" "), ("tab1", b"\t"), ("sp-run", None), ("mixed-run", None)):
+        for total in (F - 1, F, F + 1, 3 * F, 12 * F):
+            first = b"v" * min(8, max(1, total // 4))
+            remain = total - len(first)
+            piece = max(4, min(F - 2, remain // 3 if total <= F + 1 else F - 2))
+            lines = []
+            while remain > 0:
+                n = min(piece, remain)
+                if ws is not None:
+                    lead = ws
+                elif ws_name == "sp-run":
+                    lead = b" " * max(1, n - 1)
+                else:
+                    lead = (b" \t" * n)[: max(1, n - 2)]
+                lead = lead[: max(1, n - 1)] if n > 1 else lead[:1]
+                lines.append(lead + b"c" * (n - len(lead)))
+                remain -= n
+            r = b"HTTP/1.1 200 OK\r\nX: " + first + b"\r\n" + b"".join(l + b"\r\n" for l in lines) + b"Content-Length: 0\r\n\r\n"
+            out.append((f"fold-sum-{ws_name}-{total}", r, [[len(r) // 2], list(range(20, len(r), max(7, F // 3)))], "response"))
+    return out
